@@ -2,6 +2,9 @@
 """Confirm a seeded change in a scratch worktree and store it under /verif/seeded/<name>/.
 
 usage: tools/confirm_seed.py <src dir with patch.diff demo.py notes.md> <property> <name> [--no-tests]
+       tools/confirm_seed.py <src dir with patch.diff notes.md> <property> <name> --neutral <demo.py> [<demo.py> ...]
+           a behaviour-preserving change: the test suite passes with it and every given demonstration of a breakage of
+           the same property (written for other seeds) still exits 0 with it
 
 Checks (all in a scratch worktree of /repo HEAD under /tmp, removed afterwards):
   1. the patch applies;  2. the demo exits non-zero with the change;  3. the demo exits 0 without it;
@@ -17,6 +20,8 @@ import time
 
 src, prop, name = sys.argv[1:4]
 run_tests = '--no-tests' not in sys.argv
+neutral = '--neutral' in sys.argv
+neutral_demos = sys.argv[sys.argv.index('--neutral') + 1 :] if neutral else []
 wt = '/tmp/confirm_wt_%s' % name
 out = '/verif/seeded/%s' % name
 
@@ -38,11 +43,38 @@ try:
         print('patch does not apply:', r.stderr[:300])
         sys.exit(3)
     env = dict(os.environ, PYTHONPATH=wt + '/src', PYTHONDONTWRITEBYTECODE='1')
+    if neutral:
+        sh('git -C %s apply %s' % (wt, patch))
+        results = []
+        for i, dm in enumerate(neutral_demos):
+            local = os.path.join(wt, '_demo%d.py' % i)
+            open(local, 'w').write(re.sub(r'/tmp/wt2?_C\d+', wt, open(dm).read()))
+            r = sh('cd %s && timeout 300 /venv/bin/python _demo%d.py' % (wt, i), env=env)
+            results.append({'demo': dm, 'exit': r.returncode})
+        t0 = time.time()
+        rt = sh('cd %s && timeout 1500 /venv/bin/python -m pytest -q -p no:cacheprovider -n 8 tests 2>&1 | tail -8' % wt, env=env)
+        mp = re.search(r'(\d+) passed', rt.stdout)
+        fails = re.findall(r'FAILED (\S+)', rt.stdout)
+        unexpected = [f for f in fails if 'test_a_clean_tree_exits_zero' not in f and 'test_util.py::TestDNS' not in f and 'TestRegistryPerformance' not in f]
+        tests = {'passed': int(mp.group(1)) if mp else 0, 'failed_ids': fails, 'unexpected_failures': unexpected, 'wall_s': round(time.time() - t0)}
+        ok = all(x['exit'] == 0 for x in results) and not unexpected and tests['passed'] > 5000
+        meta.update({'kind': 'neutral', 'demos_with_change': results, 'tests_with_change': tests, 'confirmed': ok})
+        notes = os.path.join(src, 'notes.md')
+        if os.path.exists(notes):
+            meta['notes_excerpt'] = open(notes).read()[:1500]
+        print(name, 'confirmed neutral' if ok else 'NOT CONFIRMED', results, tests)
+        if ok:
+            os.makedirs(out, exist_ok=True)
+            shutil.copy(patch, os.path.join(out, 'patch.diff'))
+            if os.path.exists(notes):
+                shutil.copy(notes, os.path.join(out, 'notes.md'))
+            json.dump(meta, open(os.path.join(out, 'meta.json'), 'w'), indent=1)
+        sys.exit(0 if ok else 4)
     demo = os.path.join(src, 'demo.py')
     demo_txt = open(demo).read()
     # demos were written against /tmp/wt_Cxx: point them at the confirmation worktree
     demo_local = os.path.join(wt, '_demo.py')
-    open(demo_local, 'w').write(re.sub(r'/tmp/wt_C\d+', wt, demo_txt))
+    open(demo_local, 'w').write(re.sub(r'/tmp/wt2?_C\d+', wt, demo_txt))
     sh('git -C %s apply %s' % (wt, patch))
     r1 = sh('cd %s && timeout 300 /venv/bin/python _demo.py' % wt, env=env)
     meta['demo_with_change'] = {'exit': r1.returncode, 'tail': (r1.stdout + r1.stderr)[-600:]}
@@ -55,7 +87,7 @@ try:
         failed = int(m.group(1)) if m else 0
         mp = re.search(r'(\d+) passed', tail)
         fails = re.findall(r'FAILED (\S+)', tail)
-        unexpected = [f for f in fails if 'test_a_clean_tree_exits_zero' not in f and 'test_util.py::TestDNS' not in f]
+        unexpected = [f for f in fails if 'test_a_clean_tree_exits_zero' not in f and 'test_util.py::TestDNS' not in f and 'TestRegistryPerformance' not in f]
         tests = {'passed': int(mp.group(1)) if mp else 0, 'failed': failed, 'failed_ids': fails, 'unexpected_failures': unexpected, 'wall_s': round(time.time() - t0)}
         meta['tests_with_change'] = tests
     sh('git -C %s apply -R %s' % (wt, patch))
